@@ -770,6 +770,8 @@ class CompressedBytesColumn(Column):
     default).
     """
 
+    _default = emptybytes
+
     def __init__(self, level=3, module="zlib"):
         """
         :param level: the compression level to use.
@@ -832,6 +834,8 @@ class CompressedBlockColumn(Column):
     for columns with lots of very short values, but random access times are
     usually terrible.
     """
+
+    _default = emptybytes
 
     def __init__(self, level=3, blocksize=32, module="zlib"):
         """
